@@ -306,7 +306,7 @@ def applyBuiltin (ctx : Ctx) (b : Builtin) (ps : List Value) : Outcome Value :=
     | some (some r) => .ok (.bool r)
     | some none => .err .functionError
     -- the harness re-sends the case with the answer of the `regex` crate in `ctx.regex`
-    | none => .panic ("need-regex " ++ hexOfStr re ++ " " ++ hexOfStr t)
+    | none => .err (.needRegex (hexOfStr re) (hexOfStr t))
   | .duration, [.str s] => match Dur.parse s with
     | some ns => .ok (.dur ns)
     | none => .err .functionError
